@@ -111,10 +111,10 @@ def fd_scenario(chk, label, kind, outcomes, explicit):
     import tensorflow_probability.substrates.jax.distributions as tfd
     from liesel.model.goose import finite_discrete_gibbs_kernel
     m_out = len(outcomes)
-    if kind == "FiniteDiscrete":
+    if kind.startswith("FiniteDiscrete"):
         grid = lsl.Var(jnp.asarray(sorted(outcomes), dtype=jnp.float32), name="grid")
         probs = lsl.Var(jnp.asarray(np.linspace(1, 2, m_out) / np.linspace(1, 2, m_out).sum(), dtype=jnp.float32), name="probs")
-        k = lsl.Var(float(sorted(outcomes)[0]), lsl.Dist(tfd.FiniteDiscrete, outcomes=grid, probs=probs), name="k")
+        k = lsl.Var(1 if kind.endswith("int-initialised") else float(sorted(outcomes)[0]), lsl.Dist(tfd.FiniteDiscrete, outcomes=grid, probs=probs), name="k")
     else:
         probs = lsl.Var(jnp.asarray(0.7), name="probs")
         k = lsl.Var(1, lsl.Dist(tfd.Bernoulli, probs=probs), name="k")
@@ -129,6 +129,8 @@ def fd_scenario(chk, label, kind, outcomes, explicit):
     free0 = {"probs_value": jnp.asarray(model.vars["probs"].value), "s_value": jnp.asarray(1.2), "y_value": jnp.asarray([0.5, 1.5])}
     outs = [float(o) for o in outcomes] if explicit else ([0.0, 1.0] if kind == "Bernoulli" else [float(o) for o in sorted(outcomes)])
     dt = np.asarray(model.vars["k"].value).dtype
+    if any(float(o) != int(o) for o in outs):
+        dt = np.dtype(np.float32)            # fractional outcomes are assigned as they are, whatever the variable was initialised with
 
     def f(key, fv):
         st = iface.update_state(fv, full0)
@@ -169,7 +171,8 @@ def fd_scenario(chk, label, kind, outcomes, explicit):
         a_, o_ = V.call("categorical")
         idx = cells(o_[0])[0]
         d = cells(V.out["draw"])[0]
-        return hyps + [idx >= 0, idx < len(outs)], z3.And(*[z3.Implies(idx == j, d == z3.RealVal(repr(float(outs[j]))) if not z3.is_int(d) else d == int(outs[j])) for j in range(len(outs))])
+        return hyps + [idx >= 0, idx < len(outs)], z3.And(*[z3.Implies(idx == j, d == z3.RealVal(repr(float(outs[j]))) if not z3.is_int(d) else (d == int(outs[j]) if float(outs[j]) == int(outs[j]) else z3.BoolVal(False)))
+                                                                for j in range(len(outs))])
     obs.append(Obligation(f"finite_discrete_gibbs_kernel[{label}]: the returned value is the outcome with the drawn index", [enc], g_draw, signature=f"fd:{label}:draw", timeout_s=120))
     return obs, enc
 
@@ -185,9 +188,10 @@ def main():
             obs += res[0]
             chk.validate(res[1])
     fds = [("FiniteDiscrete{0,1,2} from prior", "FiniteDiscrete", (0.0, 1.0, 2.0), False), ("Bernoulli from prior", "Bernoulli", (0, 1), False),
-           ("Bernoulli outcomes=[1,0]", "Bernoulli", (1, 0), True), ("FiniteDiscrete outcomes=[2,0,1]", "FiniteDiscrete", (2.0, 0.0, 1.0), True)]
+           ("Bernoulli outcomes=[1,0]", "Bernoulli", (1, 0), True), ("FiniteDiscrete outcomes=[2,0,1]", "FiniteDiscrete", (2.0, 0.0, 1.0), True),
+           ("FiniteDiscrete{0,.5,1,1.5}, variable initialised with an integer", "FiniteDiscrete/int-initialised", (0.0, 0.5, 1.0, 1.5), False)]
     if chk.tier == "quick":
-        fds = fds[:3]
+        fds = fds[:3] + fds[4:]
     for label, kind, outcomes, explicit in fds:
         res = chk.guarded(f"fd:{label}:trace", f"tracing finite_discrete_gibbs_kernel[{label}]", fd_scenario, chk, label, kind, outcomes, explicit)
         if res:
